@@ -315,7 +315,10 @@ class WebSocket:
             #   However, it is erroneously reported as missing on CPython 3.11.
             response['reason'] = reason
 
-        await self._asgi_send(response)
+        # NOTE: Send via _send() so that a server error caused by a lost
+        #   connection is translated, and the connection is marked as closed
+        #   (otherwise the error handlers would try to close it once more).
+        await self._send(response)
 
         self._state = _WebSocketState.CLOSED
         self._close_code = code
